@@ -6,7 +6,17 @@ from concurrent.futures import ThreadPoolExecutor
 ROOT = os.path.dirname(os.path.dirname(os.path.abspath(__file__)))
 REPO = os.environ.get("VERIF_REPO", "/repo")
 BUILD = os.path.join(ROOT, "build")
+BUILD_ROOT = BUILD          # content-addressed object / binary caches are shared by all trees
 COQ = os.path.join(ROOT, "coq")
+if os.path.realpath(REPO) != "/repo":
+    # a run against another checkout (mutation tests) regenerates Gen/Consts.v from that tree: it works on its own copy
+    # of the Coq development so that concurrent checks of /repo itself are not disturbed
+    _alt = os.path.join(BUILD, "alt", hashlib.md5(os.path.realpath(REPO).encode()).hexdigest()[:10])
+    os.makedirs(_alt, exist_ok=True)
+    subprocess.run(["rsync", "-a", "--delete", "--exclude", "Gen/Consts.v*", "--exclude", "Gen/.Consts*", COQ + "/", os.path.join(_alt, "coq") + "/"], check=False)
+    COQ = os.path.join(_alt, "coq")
+    BUILD = _alt
+os.environ["VERIF_COQ_DIR"] = COQ
 GUARD = "OPENTELEMETRY_CPP_VERIF"
 NCPU = os.cpu_count() or 8
 
@@ -311,7 +321,7 @@ def _obj_for(src, flags):
     if rc != 0:
         return None, pre
     key = hashlib.sha256((" ".join(flags) + "\n" + pre).encode("utf-8", "replace")).hexdigest()
-    objdir = os.path.join(BUILD, "obj")
+    objdir = os.path.join(BUILD_ROOT, "obj")
     os.makedirs(objdir, exist_ok=True)
     obj = os.path.join(objdir, key + ".o")
     if os.path.exists(obj):
@@ -353,7 +363,7 @@ def build_driver(name, srcs, sdk=False, variant="san", extra_flags=(), extra_src
         all_srcs += [s for s in sdk_sources() if not any(s.endswith(x) for x in sdk_exclude)]
     objs = compile_many(all_srcs, flags)
     h = hashlib.sha256((" ".join(objs) + " ".join(flags)).encode()).hexdigest()[:16]
-    bindir = os.path.join(BUILD, "bin")
+    bindir = os.path.join(BUILD_ROOT, "bin")
     os.makedirs(bindir, exist_ok=True)
     exe = os.path.join(bindir, "%s_%s" % (name, h))
     if not os.path.exists(exe):
@@ -362,7 +372,27 @@ def build_driver(name, srcs, sdk=False, variant="san", extra_flags=(), extra_src
         if rc != 0:
             raise TieBroken("link failed:\n" + out[-3000:])
         os.replace(tmp, exe)
+        _prune_bins(bindir, name)
+    else:
+        try:
+            os.utime(exe, None)      # mark as recently used
+        except OSError:
+            pass
     return exe
+
+
+def _prune_bins(bindir, name, keep=3, min_age_s=2 * 3600):
+    """binaries are content-addressed and pile up (each ~90 MB with the SDK linked in): keep the newest few of a driver
+    and anything used in the last two hours"""
+    try:
+        cands = [os.path.join(bindir, f) for f in os.listdir(bindir) if re.fullmatch(re.escape(name) + r"_[0-9a-f]{16}", f)]
+        cands.sort(key=lambda p: os.path.getmtime(p), reverse=True)
+        now = time.time()
+        for p in cands[keep:]:
+            if now - os.path.getmtime(p) > min_age_s:
+                os.remove(p)
+    except OSError:
+        pass
 
 
 SAN_ENV = {"ASAN_OPTIONS": "detect_leaks=1:abort_on_error=0:exitcode=99:allocator_may_return_null=1",
